@@ -61,13 +61,16 @@ def check(prop, tier, seed):
                             "store_ids": [x for x in im if rng.random() < 0.6] + ([5] if rng.random() < 0.3 else []),
                             "take": rng.choice([-1, -1, 0, 1, 2]), "lend": rng.random() < 0.4})
             tid += 1
-    for _ in range(params["rand"]):
+    for j in range(params["rand"]):
         ids = rng.sample(FAR, rng.randint(1, 5))
         n = rng.randint(1, 60)
         ps = [[rng.choice(ids), k + 1] for k in range(n)]
-        scripts.append({"tid": tid, "pairs": ps, "how": rng.choice(segmentations(n, rng, 3)),
-                        "store_ids": [x for x in FAR if rng.random() < 0.4],
-                        "take": rng.choice([-1, -1, 0, 1, 2, 3]), "lend": rng.random() < 0.4})
+        sc = {"tid": tid, "pairs": ps, "how": rng.choice(segmentations(n, rng, 3)),
+              "store_ids": [x for x in FAR if rng.random() < 0.4],
+              "take": rng.choice([-1, -1, 0, 1, 2, 3]), "lend": rng.random() < 0.4}
+        if j % 4 == 0:
+            sc["fclear"] = rng.choice([1, 1, 2, 3, 9])     # clear() with a panicking destructor (or none: k too large)
+        scripts.append(sc)
         tid += 1
     workdir = os.path.join(C.OUT, "work", key)
     C.sh(["rm", "-rf", workdir])
